@@ -1,5 +1,6 @@
 mod fakecli;
 mod frame;
+mod memtransport;
 mod sshserver;
 mod tlsserver;
 mod util;
